@@ -27,7 +27,7 @@ ASSUMPTIONS = ["no independent oracle needed; equivalence of rewrites re-checked
 TECHNIQUE = "metamorphic property-based testing (presentation-changing, meaning-preserving transformations)"
 
 CFGS = ["p", "z", "w-rc2", "w-z3", "lex-rc2", "lex-z3", "c"]
-TRANSFORMS = ["rekey:zero", "rekey:sparse", "rekey:permuted", "reorder", "rename", "rename:internal",
+TRANSFORMS = ["rekey:zero", "rekey:sparse", "rekey:permuted", "reorder", "reorder:specific-first", "rename", "rename:internal",
               "signature", "equiv:base", "equiv:query", "condrewrite"]
 INTERNAL = ["eta_1", "eta_2", "mv_0", "mf_1", "mv_1", "gamma-_1", "eta_3"]
 
@@ -37,18 +37,35 @@ def budget(tier):
             "soft_seconds": 300 if tier == "quick" else 3000}
 
 
+def _search3(seed):
+    from .. import search as S
+    c = S.three_layer_search(seed | 1 if seed % 3 == 0 else seed)   # start from a non-'specific first' listing
+    return c
+
+
+def _layered():
+    @st.composite
+    def go(draw):
+        atoms, conds = draw(gen.layered_base(3, 5, 7))
+        return gen.mk_case(atoms, conds, draw(gen.query_list(atoms, conds, 2, 4)))
+    return go()
+
+
 @st.composite
 def _case(draw, tier):
     q = tier == "quick"
     c = dict(draw(st.one_of(
         gen.strong_case(1, 4, 5, qlo=2, qhi=4),
-        gen.strong_case(1, 4, 5, qlo=2, qhi=4),
+        _layered(),
+        st.integers(0, 2**40).map(_search3),
         gen.weak_case(1, 4, 5, qlo=2, qhi=4),
         rel.medium_case(8, 16 if q else 40, 16 if q else 40, nq=3),
         rel.corpus_case(20 if q else 100, 20 if q else 100, nq=2),
     )))
     k = draw(st.integers(1, 3))
     ts = [draw(gen._weighted([(t, 2 if t == "rename:internal" else 6) for t in TRANSFORMS])) for _ in range(k)]
+    if c.get("searched") == "three-layer-tie" and draw(st.booleans()):
+        ts = ["reorder:specific-first"] + ts[:1]
     c["transforms"] = ts
     c["tseed"] = draw(st.integers(0, 2**32))
     return c
@@ -159,6 +176,19 @@ def apply_transform(t, atoms, base, queries, rnd):
     if t == "reorder":
         b = list(base)
         rnd.shuffle(b)
+        return atoms, b, queries, b != base
+    if t == "reorder:specific-first":
+        # conditionals of higher tolerance layers first (listing order and keys both permuted)
+        from .. import ref
+        if len(gen.all_atoms(atoms, base, [])) > 8:
+            return atoms, base, queries, False
+        sem = ref.Sem(gen.all_atoms(atoms, base, []), [(B, A) for _, B, A in base])
+        M = ref.Model(sem, extended=True)
+        if not M.ok:
+            return atoms, base, queries, False
+        lay = {j: M.layer_of.get(j, len(M.layers)) for j in range(len(base))}
+        order = sorted(range(len(base)), key=lambda j: -lay[j])
+        b = [base[j] for j in order]
         return atoms, b, queries, b != base
     if t.startswith("rename"):
         allat = gen.all_atoms(atoms, base, queries)
